@@ -25,18 +25,34 @@ class Broken(Exception):
 def build_defines():
     """-D flags of the shipped CLI build (what `make check` tests), read from the
     repository's own Makefiles on every run."""
+    # programs/Makefile probes the toolchain by compiling scratch files inside programs/ (have_pthread.c ...): two
+    # `make -n` running at once in the same tree disturb each other and one of them loses -DZSTD_MULTITHREAD.  All
+    # invocations are therefore serialised on a lock file, and a result is only trusted when two runs in a row agree.
+    import fcntl
+    lock = open(os.path.join(tempfile.gettempdir(), ".zcheck-make-n.lock"), "w")
+    fcntl.flock(lock, fcntl.LOCK_EX)
     try:
-        out = subprocess.run(["make", "-n", "-B", "-C", os.path.join(REPO, "programs"), "zstd"],
-                             capture_output=True, text=True, timeout=60).stdout
-    except Exception:
-        return list(REFERENCE_DEFINES), "fallback(make -n failed)"
-    defs = []
-    for line in out.splitlines():
-        if " -c " in line and "zstd_compress.c" in line:
-            for tok in line.split():
-                if tok.startswith("-D") and not tok.startswith(DROPPED) and tok not in defs:
-                    defs.append(tok)
-            break
+        prev = None
+        defs = []
+        for attempt in range(4):
+            try:
+                out = subprocess.run(["make", "-n", "-B", "-C", os.path.join(REPO, "programs"), "zstd"],
+                                     capture_output=True, text=True, timeout=60).stdout
+            except Exception:
+                return list(REFERENCE_DEFINES), "fallback(make -n failed)"
+            defs = []
+            for line in out.splitlines():
+                if " -c " in line and "zstd_compress.c" in line:
+                    for tok in line.split():
+                        if tok.startswith("-D") and not tok.startswith(DROPPED) and tok not in defs:
+                            defs.append(tok)
+                    break
+            if defs and defs == prev:
+                break
+            prev = defs
+    finally:
+        fcntl.flock(lock, fcntl.LOCK_UN)
+        lock.close()
     if not defs:
         return list(REFERENCE_DEFINES), "fallback(no compile line)"
     src = "make -n -B -C programs zstd"
